@@ -891,3 +891,28 @@ def chunks_of_an_iterator():
 def nested_comprehension_flattens():
     blocks = ([k * 10 + j for j in range(k + 1)] for k in range(3))
     return [r for block in blocks for r in block]
+
+
+class _Pt:
+    def __init__(self, x, y):
+        self.x = x
+        self.y = y
+        self.norm1 = abs(x) + abs(y)
+
+    def shifted(self, d):
+        out = _Pt.__new__(_Pt)
+        out.x = self.x + d
+        out.y = self.y
+        out.norm1 = abs(out.x) + abs(out.y)
+        return out
+
+    def twin(self):
+        new = self.__class__.__new__(self.__class__)
+        new.x, new.y, new.norm1 = self.x, self.y, self.norm1
+        return new
+
+
+def instance_made_without_init():
+    p = _Pt(1, -2).shifted(3)
+    q = p.twin()
+    return p.x, p.norm1, q.y, q.norm1
